@@ -1,4 +1,5 @@
 import Ampy.Lemmas.RunFacts
+import Ampy.Lemmas.Extra
 import Ampy.Props.C09
 /-!
 # C20 — diagnostic plotting is total and free of side effects  (level: other; partial)
@@ -38,5 +39,12 @@ theorem C20_context_restores {G ε β : Type} (style : G) (body : G → G × Exc
 result, so the chunk after plotting is the chunk before; the message it prints is `metar_msg()` of that
 unchanged chunk. -/
 theorem C20_reads_only {α F : Type} (plot : Chunk α → F) (c : Chunk α) : (c, plot c).1 = c := rfl
+
+/-- `ncomp` of every group lies in the keys `-1, 1, 2, 3` of the plot's symbol table (`symbs[ncomp]`
+cannot raise a `KeyError`). -/
+theorem C20_ncomp_keys {α} [DecidableEq α] (K : Kern) (P : PPrms α) (hK : KernOK K P.basePerc)
+    (checked : List (Hit α)) (c : Chunk α) (h : run K P checked = .ok c) (gr : Table) (hg : c.groups = some gr) :
+    ∀ g ∈ gr, g.ncomp = some (-1) ∨ g.ncomp = some 1 ∨ g.ncomp = some 2 ∨ g.ncomp = some 3 :=
+  run_ncomp_range K P hK checked c h gr hg
 
 end Ampy
